@@ -353,3 +353,91 @@ func VerifFileKthLoadFails() {
 	}
 	verifrt.Reach("end")
 }
+
+// VerifHandBuiltReadOrder (C20): file DAGs as another writer may leave them — correct
+// FileSize and BlockSizes, raw leaves whose links carry an exact or skewed (+1) Tsize
+// (Tsize is advisory) — are requested in depth-first link order by a full
+// sequential read and by preload.
+func VerifHandBuiltReadOrder() {
+	st := verifmodel.NewStore()
+	ls := st.LinkSystem()
+	unixfsnode.AddUnixFSReificationToLinkSystem(ls)
+	next := byte('a')
+	var order []string // expected first-request order below the root
+	rawLink := func() (pbLinkSpec, uint64) {
+		c := []byte{next}
+		next++
+		l := storeRaw(ls, c)
+		s := pbLinkSpec{hash: l, hasName: true, name: ""}
+		// (a raw link without any Tsize is refused by the reader with an error — legal
+		// for every property, and no reference writer omits it — so it is not generated)
+		s.hasTsize, s.tsize = true, 1
+		if verifrt.Choose(2) == 1 {
+			s.tsize = 2
+			verifrt.Reach("skewed-tsize")
+		}
+		return s, 1
+	}
+	fileNode := func(links []pbLinkSpec, sizes []uint64) datamodel.Link {
+		var total uint64
+		for _, s := range sizes {
+			total += s
+		}
+		d := pbField(pbField(nil, 1, 2), 3, total)
+		for _, s := range sizes {
+			d = pbField(d, 4, s)
+		}
+		return storeNode(ls, mkPBNode(true, d, links))
+	}
+	var rootLinks []pbLinkSpec
+	var rootSizes []uint64
+	want := 0
+	if verifrt.Choose(2) == 0 { // flat: three raw leaves
+		for i := 0; i < 3; i++ {
+			l, n := rawLink()
+			rootLinks, rootSizes = append(rootLinks, l), append(rootSizes, n)
+			order = append(order, l.hash.Binary())
+			want++
+		}
+	} else { // an interior child over two raw leaves, then a raw leaf
+		var il []pbLinkSpec
+		var is []uint64
+		var keys []string
+		for i := 0; i < 2; i++ {
+			l, n := rawLink()
+			il, is = append(il, l), append(is, n)
+			keys = append(keys, l.hash.Binary())
+		}
+		a := fileNode(il, is)
+		rootLinks = append(rootLinks, pbLinkSpec{hash: a, hasName: true, name: "", hasTsize: true, tsize: 40})
+		rootSizes = append(rootSizes, 2)
+		order = append(append(order, a.Binary()), keys...)
+		l, n := rawLink()
+		rootLinks, rootSizes = append(rootLinks, l), append(rootSizes, n)
+		order = append(order, l.hash.Binary())
+		want = 3
+		verifrt.Reach("two-levels")
+	}
+	lnk := fileNode(rootLinks, rootSizes)
+	root, err := ls.Load(ipld.LinkContext{}, lnk, protoFor(lnk))
+	verifrt.Assert(err == nil, "root-loads")
+	st.Loads = nil
+	if verifrt.Choose(2) == 0 {
+		node, err := unixfsnode.Reify(ipld.LinkContext{}, root, ls)
+		verifrt.Assert(err == nil, "reify-ok")
+		all, err := node.AsBytes()
+		verifrt.Assert(err == nil && len(all) == want, "full-read")
+	} else {
+		node, err := ls.KnownReifiers["unixfs-preload"](ipld.LinkContext{}, root, ls)
+		verifrt.Assert(err == nil && node != nil, "preload-ok")
+		verifrt.Reach("preload")
+	}
+	first := firstRequests(st)
+	verifrt.Assert(len(first) == len(order), "order:every-block-requested")
+	for i := range order {
+		if i < len(first) {
+			verifrt.Assert(first[i] == order[i], "order:depth-first-link-order")
+		}
+	}
+	verifrt.Reach("end")
+}
